@@ -113,6 +113,27 @@ func VH_C11_Produce(version int) {
 	vhFollowUp(c, fc, want, "produce")
 }
 
+// A produce response carrying a partition error whose last k bytes are late: the read times out once after
+// len-k bytes, the rest (and the next response) arrives afterwards. Either the error is the broker's and the
+// connection is left on the frame boundary, or it is a transport error and the connection is closed.
+func VH_C11_ProduceErrorStalled(version int) {
+	code := vhInt16("error_code")
+	vhAssume(code != 0)
+	want := vhInt64("last_offset")
+	f1 := vhAdvertise(1, produce, int16(version))
+	f2 := vhProduceResponse(2, version, "t", 0, code, vhInt64("base_offset"), 1000, vhInt64("log_start"), vhInt32("throttle"))
+	f3 := vhListOffsetsFrame(3, "t", 0, 0, -1, want)
+	script := append(append(append([]byte{}, f1...), f2...), f3...)
+	k := 1 + vhChoose("late_bytes", 8)
+	fc := &vhFakeConn{data: script, stallAt: len(f1) + len(f2) - k}
+	c := NewConnWith(fc, ConnConfig{Topic: "t", Partition: 0, ClientID: "vh"})
+	_, _, _, _, err := c.WriteCompressedMessagesAt(nil, Message{Value: []byte("v"), Time: time.Unix(100, 0)})
+	vhAssert(err != nil, "stalled-produce-error-is-reported")
+	vhAfterOp(c, fc, err, len(f1)+len(f2), "stalled-produce")
+	vhFollowUp(c, fc, want, "stalled-produce")
+	vhReach("c11-produce-stalled")
+}
+
 func VH_C11_ListOffsets() {
 	code := vhInt16("error_code")
 	got := vhInt64("offset")
